@@ -426,6 +426,21 @@ impl<'a> Sim<'a> {
     }
 
     /// Common handling of a request aimed at a backtest id the server does not know.
+    /// A request aimed at a backtest the harness created but the server no longer knows.
+    fn vanished(&mut self, bt: u64, what: &str) -> bool {
+        if let Some(h) = self.handle_of(bt) {
+            if !self.bts[h].aliased {
+                let k = self.bts[h].k;
+                let msg = format!("backtest {bt} was created and ticked {k} times, but the server no longer knows it ({what} is answered as for an unknown backtest)");
+                self.ctx.fail("C07", "backtest-vanished", what, msg.clone());
+                self.ctx.fail("C08", "backtest-vanished", what, msg);
+                self.bts[h].aliased = true;
+                return true;
+            }
+        }
+        false
+    }
+
     fn unknown_target(&mut self, what: &str, ok: bool, status: u16) {
         self.ctx.bump("f5_unknown_backtest");
         rule!(self.ctx, "C08", "unknown-accepted", what, !ok, "{what} on an unknown backtest id was accepted");
@@ -462,6 +477,9 @@ impl<'a> Sim<'a> {
                 ev!(self.ctx, "insert bt={bt} {:?} -> {:?}", spec, r.as_ref().map_err(|e| e.status));
                 self.record(h, op, format!("{:?}", r.as_ref().map_err(|e| e.status)));
                 if !exists {
+                    if self.vanished(bt, "insert_order") {
+                        return;
+                    }
                     self.unknown_target("insert_order", r.is_ok(), r.as_ref().err().map_or(200, |e| e.status));
                     return;
                 }
@@ -506,6 +524,9 @@ impl<'a> Sim<'a> {
                 ev!(self.ctx, "delete bt={bt} asset={asset} id={id} -> {:?}", r.as_ref().map_err(|e| e.status));
                 self.record(h, op, format!("{:?}", r.as_ref().map_err(|e| e.status)));
                 let Some(pre) = pre else {
+                    if self.vanished(bt, "delete_order") {
+                        return;
+                    }
                     self.unknown_target("delete_order", r.is_ok(), r.as_ref().err().map_or(200, |e| e.status));
                     return;
                 };
@@ -550,6 +571,9 @@ impl<'a> Sim<'a> {
         let r = self.srv.as_ref().unwrap().tick(bt);
         let Some(pre) = pre else {
             ev!(self.ctx, "tick bt={bt} -> {:?}", r.as_ref().map(|_| ()).map_err(|e| e.status));
+            if self.vanished(bt, "tick") {
+                return;
+            }
             self.unknown_target("tick", r.is_ok(), r.as_ref().err().map_or(200, |e| e.status));
             return;
         };
@@ -650,6 +674,9 @@ impl<'a> Sim<'a> {
         ev!(self.ctx, "fetch bt={bt} -> {canon}");
         self.record(h, op, canon);
         if !exists {
+            if self.vanished(bt, "fetch_quotes") {
+                return;
+            }
             self.unknown_target("fetch_quotes", r.is_ok(), r.as_ref().err().map_or(200, |e| e.status));
             return;
         }
@@ -707,6 +734,9 @@ impl<'a> Sim<'a> {
         ev!(self.ctx, "info bt={bt} -> {canon}");
         self.record(h, op, canon);
         if !exists {
+            if self.vanished(bt, "info") {
+                return;
+            }
             self.unknown_target("info", r.is_ok(), r.as_ref().err().map_or(200, |e| e.status));
             return;
         }
